@@ -115,10 +115,23 @@ pub struct Supplied {
     pub kvs: Vec<(&'static str, u64, u8)>,
     pub mv: u64,
     pub gc: u64,
+    /// key `a` is supplied with the value string the copies of the engine already hold for it
+    /// ("old-a1"): same string, possibly a newer version or another status
+    pub same_value: bool,
+}
+
+fn supplied_value(s: &Supplied, k: &str, ver: u64, st: u8) -> String {
+    if st == 1 {
+        String::new()
+    } else if s.same_value && k == "a" {
+        "old-a1".to_string()
+    } else {
+        format!("new-{k}{ver}")
+    }
 }
 
 pub fn supplied_json(s: &Supplied) -> Value {
-    json!({"key_values": s.kvs.iter().map(|(k, v, st)| json!([k, v, st])).collect::<Vec<_>>(), "max_version": s.mv, "last_gc_version": s.gc})
+    json!({"key_values": s.kvs.iter().map(|(k, v, st)| json!([k, v, st])).collect::<Vec<_>>(), "max_version": s.mv, "last_gc_version": s.gc, "same_value": s.same_value})
 }
 
 pub fn all_supplied(vmax: u64) -> Vec<Supplied> {
@@ -138,7 +151,10 @@ pub fn all_supplied(vmax: u64) -> Vec<Supplied> {
     for ks in keysets {
         for mv in 0..=vmax {
             for gc in 0..=vmax {
-                out.push(Supplied { kvs: ks.clone(), mv, gc });
+                out.push(Supplied { kvs: ks.clone(), mv, gc, same_value: false });
+                if ks.iter().any(|(k, _, st)| *k == "a" && *st != 1) {
+                    out.push(Supplied { kvs: ks.clone(), mv, gc, same_value: true });
+                }
             }
         }
     }
@@ -167,7 +183,7 @@ fn call(n: &mut Node, s: &Supplied) -> Result<(), String> {
                 1 => DeletionStatus::Deleted(now),
                 _ => DeletionStatus::DeleteAfterTtl(now),
             };
-            (k.to_string(), VersionedValue { value: if *st == 1 { String::new() } else { format!("new-{k}{ver}") }, version: *ver, status })
+            (k.to_string(), VersionedValue { value: supplied_value(s, k, *ver, *st), version: *ver, status })
         })
         .collect();
     let id = real::to_real_id(&x_id());
@@ -212,7 +228,7 @@ fn judge(existing: &str, before: &CopyView, after: &CopyView, s: &Supplied, live
     *applied = true;
     let mut want: BTreeMap<String, (u64, u8, String)> = BTreeMap::new();
     for (k, ver, st) in &s.kvs {
-        let newv = (*ver, *st, if *st == 1 { String::new() } else { format!("new-{k}{ver}") });
+        let newv = (*ver, *st, supplied_value(s, k, *ver, *st));
         let e = match b.2.get(*k) {
             Some(old) if old.0 >= *ver => old.clone(),
             _ => newv,
@@ -365,11 +381,11 @@ enum Ev {
 
 fn seq_supplied() -> Vec<Supplied> {
     vec![
-        Supplied { kvs: vec![("a", 1, 0)], mv: 1, gc: 0 },
-        Supplied { kvs: vec![("a", 1, 0), ("c", 2, 0)], mv: 2, gc: 0 },
-        Supplied { kvs: vec![("c", 3, 1)], mv: 3, gc: 2 },
-        Supplied { kvs: vec![], mv: 4, gc: 4 },
-        Supplied { kvs: vec![("a", 6, 0)], mv: 6, gc: 0 },
+        Supplied { kvs: vec![("a", 1, 0)], mv: 1, gc: 0, same_value: false },
+        Supplied { kvs: vec![("a", 1, 0), ("c", 2, 0)], mv: 2, gc: 0, same_value: false },
+        Supplied { kvs: vec![("c", 3, 1)], mv: 3, gc: 2, same_value: false },
+        Supplied { kvs: vec![], mv: 4, gc: 4, same_value: false },
+        Supplied { kvs: vec![("a", 6, 0)], mv: 6, gc: 0, same_value: false },
     ]
 }
 
@@ -531,7 +547,7 @@ pub fn run(tier: Tier, started: Instant) -> Vec<Part> {
 pub fn run_for(property: &'static str, tier: Tier, started: Instant) -> Vec<Part> {
     let vmax = tier.pick(4u64, 5u64);
     let mut part = Part::new(&format!("catchup/calls(versions 0..{vmax})"));
-    part.rule = format!("reset_node_state_if_update called on a real node for every existing copy in {{absent, empty, (0,2) with two keys, mid-reset (3,0), mid-reset (3,1), ahead (0,5), garbage collected (after heartbeats; after a catch-up only, never a heartbeat), live, (0,3) whose top version is a tombstone}} x every supplied state (key sets over {{a (present in the copy), c (new)}} with versions 0..{vmax} and every status, max_version 0..={vmax}, last_gc_version 0..={vmax}, consistent or not) x position (alone, before a real handshake with a peer that is ahead, after it, between its SYN and SYN-ACK); oracle: no panic, (watermark, max version) not lowered, the copy is unchanged or its key set is the supplied one with the newer version of shared keys, a garbage collected member stays absent, the member does not become live; when the supplied state is internally consistent (distinct versions >= 1, none above its max version) and does not contradict the copy (shared keys not older, one version = one key) gossip afterwards neither panics nor lowers a frontier, and neither do three key-GC passes timed so that the copy's older tombstones expire before those stamped by the call (4 s later); non-trivial = calls that replaced the key set");
+    part.rule = format!("reset_node_state_if_update called on a real node for every existing copy in {{absent, empty, (0,2) with two keys, mid-reset (3,0), mid-reset (3,1), ahead (0,5), garbage collected (after heartbeats; after a catch-up only, never a heartbeat), live, (0,3) whose top version is a tombstone}} x every supplied state (key sets over {{a (present in the copy), c (new)}} with versions 0..{vmax} and every status, key a's value string new or identical to the one the copy holds, max_version 0..={vmax}, last_gc_version 0..={vmax}, consistent or not) x position (alone, before a real handshake with a peer that is ahead, after it, between its SYN and SYN-ACK); oracle: no panic, (watermark, max version) not lowered, the copy is unchanged or its key set is the supplied one with the newer version of shared keys, a garbage collected member stays absent, the member does not become live; when the supplied state is internally consistent (distinct versions >= 1, none above its max version) and does not contradict the copy (shared keys not older, one version = one key) gossip afterwards neither panics nor lowers a frontier, and neither do three key-GC passes timed so that the copy's older tombstones expire before those stamped by the call (4 s later); non-trivial = calls that replaced the key set");
     let supplied = all_supplied(vmax);
     part.bounds = json!({"existing_copies": EXISTING, "supplied_states": supplied.len(), "positions": 4});
     let deadline = started + Duration::from_secs(tier.pick(50, 1500));
@@ -607,7 +623,7 @@ pub fn replay(v: &Value) -> Result<(), String> {
                 .collect()
         })
         .unwrap_or_default();
-    let s = Supplied { kvs, mv: v["supplied"]["max_version"].as_u64().unwrap_or(0), gc: v["supplied"]["last_gc_version"].as_u64().unwrap_or(0) };
+    let s = Supplied { kvs, mv: v["supplied"]["max_version"].as_u64().unwrap_or(0), gc: v["supplied"]["last_gc_version"].as_u64().unwrap_or(0), same_value: v["supplied"]["same_value"].as_bool().unwrap_or(false) };
     let mut t = Tally::default();
     match one_case(existing, &s, v["position"].as_u64().unwrap_or(0) as u8, &mut t) {
         Some((what, _)) => Err(what),
